@@ -20,10 +20,13 @@ func checkC04(p *Prog, r *Report) {
 	c04Transform(p, r)
 	c04LoadYear(p, r)
 	c04DayCounter(p, r)
-	c04StartOffset(p, r)
+	c04StartOffset(p, r, "C04.R7")
 	sentinelFallback(p, r, "C04.R8")
 	c04TodayIndex(p, r)
 	c04GapFill(p, r)
+	// "this input's monthly correction": nothing read from a run's weather folder may be kept in the session
+	// across runs except through the path-keyed file pool (shared with C03.R2b / C11.R5)
+	c03Session(p, r, p.SSA(), "C04.R11")
 }
 
 // ---------------------------------------------------------------- R1 weather errors propagate
@@ -848,8 +851,8 @@ func c04Expected(p *Prog, r *Report) {
 // whatever that value is: for a start on 1 January it is −1, and the advance
 // makes it 0.  A floor, cap or any other conditional definition shifts every
 // day of the run by one record for exactly those start dates.
-func c04StartOffset(p *Prog, r *Report) {
-	r.Rule("C04.R7", "start offset: Init sets the record index to (day of year of the start date) − 2 by one unconditional, unclamped definition; the day of year is the first result of the date conversion whose second result is the start day number; the year counter must equal the calendar year of the first day", 4)
+func c04StartOffset(p *Prog, r *Report, rule string) {
+	r.Rule(rule, "start offset: Init sets the record index to (day of year of the start date) − 2 by one unconditional, unclamped definition; the day of year is the first result of the date conversion whose second result is the start day number; the year counter must equal the calendar year of the first day", 4)
 	x := walked(p, "hermes.Init")
 	if x == nil {
 		r.Ob("Init", "-", false, "hermes.Init not found")
